@@ -206,8 +206,9 @@ impl<'a> Ctx<'a> {
                 .zip(want)
                 .position(|(a, b)| a.bits() != b.bits())
                 .unwrap_or(got.len().min(want.len()));
+            let p = self.prop;
             self.push(
-                "C08",
+                p,
                 api,
                 "elements",
                 format!(
@@ -223,8 +224,9 @@ impl<'a> Ctx<'a> {
 
     fn expect_opt<T: Val>(&mut self, api: &str, what: &str, got: Option<T>, want: Option<T>) {
         if got.map(|x| x.bits()) != want.map(|x| x.bits()) {
+            let p = self.prop;
             self.push(
-                "C08",
+                p,
                 api,
                 "element",
                 format!("{what}: returned {got:?}, expected {want:?}"),
